@@ -223,7 +223,14 @@ impl<C: NtpClock> Server<C> {
         // Try and parse the message
         let (packet, cookie) = match NtpPacket::deserialize(message, self.keyset.as_ref()) {
             Ok((packet, cookie)) => {
-                if packet.mode() == crate::NtpAssociationMode::Client {
+                // RFC 8915 requires a unique identifier in every NTS request. Without one
+                // the response can end up with nothing to authenticate, so such requests
+                // are treated as malformed.
+                let nts_without_uid = cookie.is_some()
+                    && !packet.authenticated_extension_fields().any(|ef| {
+                        matches!(ef, crate::packet::ExtensionField::UniqueIdentifier(_))
+                    });
+                if packet.mode() == crate::NtpAssociationMode::Client && !nts_without_uid {
                     (packet, cookie)
                 } else {
                     stats_handler.register(
